@@ -1313,7 +1313,29 @@ func (fv *FV) havocHeapKey(st *State, k string) {
 	}
 	n := fv.sess.fresh("H", cur.S)
 	st.heap[k] = Val{T: n, S: cur.S, Go: cur.Go}
+	if k == "chan.closed" {
+		// a channel that exists and is closed stays closed, whatever happened in between
+		fv.assume(st, fmt.Sprintf("(forall ((r!c Int)) (! (=> (and (<= r!c alloc0) (select %s r!c)) (select %s r!c)) :pattern ((select %s r!c))))", cur.T, n, n))
+	}
 	// type invariants for heap cells are asserted at reads
+}
+
+// loopCanary: the body of a loop that carries invariants must be reachable under
+// the invariants, the loop condition and everything assumed before (an
+// invariant that contradicts the havoc'd loop state would make every obligation
+// inside the body vacuous).
+func (fv *FV) loopCanary(body *State, ord int, ninv int) {
+	if body == nil || ord <= 0 || ninv == 0 || fv.contract == nil || fv.pure > 0 || !fv.fn.top {
+		return
+	}
+	base := fmt.Sprintf("%s#vacuity.loop%d", fv.fname, ord)
+	fv.cnt[base]++
+	if fv.cnt[base] > 1 {
+		// the same loop reached again on another (unmerged) path: one canary is enough
+		return
+	}
+	fv.obls = append(fv.obls, &Obl{Name: base, Func: fv.fname, Kind: "vacuity", Goal: not(body.pc),
+		NDecls: len(fv.sess.decls), NFacts: len(fv.sess.facts), Props: fv.contract.Props, Text: "the loop body is reachable under its invariants (this query must not be unsat)"})
 }
 
 func (fv *FV) specEnvAt(st *State, pos token.Pos) *SpecEnv {
@@ -1354,6 +1376,7 @@ func (fv *FV) execFor(st *State, s *ast.ForStmt, label string) *State {
 	} else {
 		body, exit = head, nil
 	}
+	fv.loopCanary(body, ord, len(invs))
 	var decBefore string
 	if dec != nil {
 		decBefore = fv.evalSpec(fv.specEnvAt(body, s.Body.Lbrace), dec.Expr).T
@@ -1506,6 +1529,7 @@ func (fv *FV) execRange(st *State, s *ast.RangeStmt, label string) *State {
 		fv.assume(head, fv.evalSpecBool(env, c.Expr))
 	}
 	body, exit := fv.branch(head, fmt.Sprintf("(< %s %s)", iv.T, n))
+	fv.loopCanary(body, ord, len(invs))
 	bindValue(body, iv.T)
 	fv.assume(exit, fmt.Sprintf("(= %s %s)", iv.T, n))
 	lc := &loopCtx{label: label}
@@ -1597,6 +1621,7 @@ func (fv *FV) execRangeMap(st *State, s *ast.RangeStmt, label string, ord int) *
 	// body: pick k in dom \ visited
 	more := fv.freshSort("more", "Bool")
 	body, exit := fv.branch(head, more.T)
+	fv.loopCanary(body, ord, len(invs))
 	k := fv.freshVal("k", mt.Key())
 	fv.assume(body, fmt.Sprintf("(and (select (mp.dom %s) %s) (not (select %s %s)))", mv.T, k.T, vis.T, k.T))
 	fv.assume(exit, fmt.Sprintf("(forall ((k!v %s)) (! (=> (select (mp.dom %s) k!v) (select %s k!v)) :pattern ((select (mp.dom %s) k!v))))", ks, mv.T, vis.T, mv.T))
